@@ -261,7 +261,8 @@ example (k : Nat) := opAssign_var_fail_at_opLoc (loc := (1, 1)) (name := c!"x") 
   (show scopeGet σe [0] c!"x" = some (SVal.plain (.int 1)) from by with_unfolding_all rfl)
   (applyBinOp_type_mismatch 1 σe (1, 3) 1 _)
 
-/-- without `name ≠ "_"` the statement is false: `_ += "a"` with `_` … there is no `_`; the statement succeeds -/
+/-- without `name ≠ "_"` the statement is false: whatever the state holds under the name `_`, and whatever the operator
+    would do, `_ op= rhs` evaluates `rhs` and succeeds (so it cannot be equal to `errAt opLoc …`) -/
 theorem opAssign_underscore_no_op (n : Nat) (σ σ1 : State) (sc : List Addr) (op : BinaryOp) (opLoc loc : Loc) (rhs : Expr)
     (v : SVal) (h1 : evalExpr (n + 1) σ sc rhs = .ok v σ1) :
     evalStmt (n + 2) σ sc (.OpAssign (.mk (.Var c!"_") loc) op opLoc rhs) = .ok .none σ1 := by
@@ -271,6 +272,8 @@ theorem opAssign_underscore_no_op (n : Nat) (σ σ1 : State) (sc : List Addr) (o
   unfold bindNext
   simp only [bindNextName, if_true, Res.bind]
 example := opAssign_underscore_no_op 0 σe σe [0] .Sum (1, 3) (1, 1) _ _ (ex_lit 0 c!"b" (1, 6))
+/-- … through the whole pipeline: `_ += "a";` is accepted and does nothing -/
+example : (run 60 c!"t.sd" c!"_ += \"a\";\n").status = .success := by decide +kernel
 
 /-- **(2b)** `xs[i] op= rhs` on a list element: located at `opLoc` (not at `loc`, the position of the target `xs[i]`) -/
 theorem opAssign_index_fail_at_opLoc (k : Nat) {ex locat : Expr} {a : Addr} {s : Option Val} {i : Nat} {items : List SVal}
